@@ -8,7 +8,6 @@ import (
 	"github.com/massnetorg/mass-core/txscript"
 	"github.com/massnetorg/mass-core/wire"
 	"massnet.org/mass-wallet/config"
-	"verifharness/internal/hist"
 	"verifharness/internal/sim"
 )
 
@@ -21,6 +20,13 @@ func script(addr string) []byte {
 	a, err := massutil.DecodeAddress(addr, config.ChainParams)
 	must(err)
 	s, err := txscript.PayToAddrScript(a)
+	must(err)
+	return s
+}
+func stakingOf(sh []byte, frozen uint64) []byte {
+	a, err := massutil.NewAddressStakingScriptHash(sh, config.ChainParams)
+	must(err)
+	s, err := txscript.PayToStakingAddrScript(a, frozen)
 	must(err)
 	return s
 }
@@ -53,7 +59,7 @@ func main() {
 	must(err)
 	fmt.Println(id, mn, a1, a2)
 	ad1, _ := massutil.DecodeAddress(a1, config.ChainParams)
-	b1 := n.MakeBlock(n.Tip(), []sim.Out{{script(a1), 500000000}, {script(a2), 300000000}, {hist.ScriptStakingOf(ad1.ScriptAddress(), 2), 700000000}}, nil)
+	b1 := n.MakeBlock(n.Tip(), []sim.Out{{script(a1), 500000000}, {script(a2), 300000000}, {stakingOf(ad1.ScriptAddress(), 2), 700000000}}, nil)
 	must(n.Attach(b1))
 	w.Notify(b1)
 	for i := 0; i < 4; i++ {
